@@ -16,7 +16,7 @@ Section StmtInd.
   Hypothesis Hinl : forall w b, Forall P b -> P (SInline w b).
   Hypothesis Hsame : forall b, Forall P b -> P (SSame b).
   Hypothesis Hmac : forall ps b, Forall P b -> P (SMacro ps b).
-  Hypothesis Hcb : forall ps k b, Forall P b -> P (SCallBlock ps k b).
+  Hypothesis Hcb : forall ps us k b, Forall P b -> P (SCallBlock ps us k b).
   Hypothesis Hblk : forall b, Forall P b -> P (SBlock b).
   Fixpoint stmt_ind' (s : stmt) : P s :=
     let go := fix go (l : list stmt) : Forall P l :=
@@ -28,7 +28,7 @@ Section StmtInd.
     | SInline w b => Hinl w b (go b)
     | SSame b => Hsame b (go b)
     | SMacro ps b => Hmac ps b (go b)
-    | SCallBlock ps k b => Hcb ps k b (go b)
+    | SCallBlock ps us k b => Hcb ps us k b (go b)
     | SBlock b => Hblk b (go b)
     end.
 End StmtInd.
@@ -49,7 +49,7 @@ Lemma gen_eq il lf bf s :
   | SInline _ b => gens il false false b
   | SSame b => gens il lf bf b
   | SMacro ps b => if nodupb ps then match gens false false false b with Ok pb => Ok [PDef (ps ++ specials ps b) pb; PSimple] | SyntaxErr => SyntaxErr end else SyntaxErr
-  | SCallBlock ps kws b => if nodupb ps then match gens false false false b, gen_call true lf bf kws with Ok pb, Ok pc => Ok (PDef (ps ++ specials ps b) pb :: pc) | _, _ => SyntaxErr end else SyntaxErr
+  | SCallBlock ps _ kws b => if nodupb ps then match gens false false false b, gen_call true lf bf kws with Ok pb, Ok pc => Ok (PDef (ps ++ specials ps b) pb :: pc) | _, _ => SyntaxErr end else SyntaxErr
   | SBlock b => match gens false false true b with Ok pb => Ok [PDef [] pb; PSimple] | SyntaxErr => SyntaxErr end
   end.
 Proof. destruct s; try reflexivity. Qed.
@@ -138,7 +138,7 @@ Section Wf.
 
   Theorem gen_wf : forall s il lf bf t, gen il lf bf s = Ok t -> forallb (py_ok pynorm il) t = true.
   Proof.
-    induction s as [sc tg| | | |k|n|b e Hb He|r b e Hb He|w b Hb|b Hb|ps b Hb|ps k b Hb|b Hb] using stmt_ind';
+    induction s as [sc tg| | | |k|n|b e Hb He|r b e Hb He|w b Hb|b Hb|ps b Hb|ps us k b Hb|b Hb] using stmt_ind';
       intros il lf bf t H; rewrite gen_eq in H.
     - destruct (can_assign tg) eqn:E; [|discriminate]. injection H as <-. cbn [forallb py_ok andb].
       now rewrite (can_assign_py_ok tg E).
